@@ -62,16 +62,32 @@ UNIT_TD = datetime.timedelta(days=1)
 # --------------------------------------------------------------------------------------------
 # naming
 # --------------------------------------------------------------------------------------------
+# ID / name style of the spec being built (set by build(); reset by the runner before every case).
+# "flat": objects of different kinds share ID strings ("0", "1", ...; lookups are per kind, so this is legal);
+# names: optional list of task names (duplicates allowed; skills are per name).
+_STYLE = {"ids": None, "names": None}
+
+
+def set_style(spec=None):
+    _STYLE["ids"] = spec.get("ids") if spec else None
+    _STYLE["names"] = spec.get("names") if spec else None
+
+
+def _id(prefix, i):
+    return str(i) if _STYLE["ids"] == "flat" else prefix + str(i)
+
+
 def tid(i):
-    return "t" + str(i)
+    return _id("t", i)
 
 
 def tname(i):
-    return "T" + str(i)
+    names = _STYLE["names"]
+    return names[i] if names and i < len(names) else "T" + str(i)
 
 
 def wid(i):
-    return "w" + str(i)
+    return _id("w", i)
 
 
 def wname(i):
@@ -79,7 +95,7 @@ def wname(i):
 
 
 def fid(i):
-    return "f" + str(i)
+    return _id("f", i)
 
 
 def fname(i):
@@ -87,15 +103,15 @@ def fname(i):
 
 
 def cid(i):
-    return "c" + str(i)
+    return _id("c", i)
 
 
 def tmid(i):
-    return "tm" + str(i)
+    return _id("tm", i)
 
 
 def wpid(i):
-    return "wp" + str(i)
+    return _id("wp", i)
 
 
 def canonical(spec):
@@ -157,6 +173,7 @@ def build(spec, task_hashes=None, comp_hashes=None, junk=0):
     junk: allocate that many throw-away objects first (different memory addresses).
     """
     _junk = [object() for _ in range(junk)]  # noqa: F841
+    set_style(spec)
     h = Handles()
     tspecs = spec.get("tasks", [])
     for i, t in enumerate(tspecs):
@@ -267,6 +284,12 @@ def _wire(h, spec):
     for i, c in enumerate(cspecs):
         if c.get("parent") is not None:
             h.comps[c["parent"]].append_child_component(h.comps[i])
+        if c.get("parent2") is not None:
+            h.comps[c["parent2"]].append_child_component(h.comps[i])
+    for i, tm in enumerate(spec.get("teams", [])):
+        h.teams[i].parent_team = h.teams[tm["parent"]] if tm.get("parent") is not None else None
+    for i, wp in enumerate(spec.get("wps", [])):
+        h.wps[i].parent_workplace = h.wps[wp["parent"]] if wp.get("parent") is not None else None
     for i, t in enumerate(tspecs):
         if t.get("comp") is not None:
             h.comps[t["comp"]].append_targeted_task(h.tasks[i])
@@ -348,6 +371,25 @@ def morph(h, spec):
         or len(h.facs) != len(spec["facs"])
     ):
         raise HarnessError("morph: the specs do not have the same shape")
+    set_style(spec)
+    # odd k: containers the user owns are edited in place (list[:] = ..., dict.clear()/update()), even k: replaced
+    in_place = bool((spec.get("warm") or {}).get("k", 0) % 2)
+
+    def put_list(obj, attr, values):
+        cur = getattr(obj, attr)
+        if in_place and isinstance(cur, list):
+            cur[:] = values
+        else:
+            setattr(obj, attr, list(values))
+
+    def put_dict(obj, attr, values):
+        cur = getattr(obj, attr)
+        if in_place and isinstance(cur, dict):
+            cur.clear()
+            cur.update(values)
+        else:
+            setattr(obj, attr, dict(values))
+
     for t in h.tasks:
         t.input_task_list = []
         t.output_task_list = []
@@ -385,9 +427,9 @@ def morph(h, spec):
             raise HarnessError("morph: worker %d changes team" % i)
         o.cost_per_time = w.get("cost", 0.0)
         o.solo_working = bool(w.get("solo", False))
-        o.workamount_skill_mean_map = {tname(int(k)): v for k, v in w.get("skills", {}).items()}
-        o.facility_skill_map = {fname(int(k)): v for k, v in w.get("fsk", {}).items()}
-        o.absence_time_list = list(w.get("abs", []))
+        put_dict(o, "workamount_skill_mean_map", {tname(int(k)): v for k, v in w.get("skills", {}).items()})
+        put_dict(o, "facility_skill_map", {fname(int(k)): v for k, v in w.get("fsk", {}).items()})
+        put_list(o, "absence_time_list", w.get("abs", []))
         o.main_workplace_id = wpid(w["mw"]) if w.get("mw") is not None else None
     for i, wp in enumerate(spec["wps"]):
         h.wps[i].max_space_size = wp.get("cap", 1.0)
@@ -397,8 +439,8 @@ def morph(h, spec):
             raise HarnessError("morph: facility %d changes workplace" % i)
         o.cost_per_time = f.get("cost", 0.0)
         o.solo_working = bool(f.get("solo", False))
-        o.workamount_skill_mean_map = {tname(int(k)): v for k, v in f.get("skills", {}).items()}
-        o.absence_time_list = list(f.get("abs", []))
+        put_dict(o, "workamount_skill_mean_map", {tname(int(k)): v for k, v in f.get("skills", {}).items()})
+        put_list(o, "absence_time_list", f.get("abs", []))
     _wire(h, spec)
     order = spec.get("order") or list(range(len(h.tasks)))
     h.project.workflow.task_list = [h.tasks[i] for i in order]
@@ -640,6 +682,15 @@ def tmp_path(name):
         _TMP[pid] = d
         atexit.register(shutil.rmtree, d, True)
     return os.path.join(_TMP[pid], name)
+
+
+def cleanup_tmp():
+    """Remove this process's scratch directory (pool workers never run atexit handlers)."""
+    import shutil
+
+    d = _TMP.pop(os.getpid(), None)
+    if d:
+        shutil.rmtree(d, True)
 
 
 def json_roundtrip(project, name="p.json"):
